@@ -1,6 +1,7 @@
 package main
 
 import (
+	"go/types"
 	"sort"
 	"strings"
 
@@ -76,5 +77,187 @@ func runC11(r *Report, p *Program) {
 	st := e5Check(h, "R1", scope, c11Exceptions)
 	r.Extra["c11_e5"] = st
 	r.Extra["c11_scope_functions"] = len(scope)
-	_ = strings.TrimSpace
+	// R2: loops and locks
+	var nonParser []*ssa.Function
+	for _, f := range scope {
+		if pk := fnPkg(f); pk != nil && !strings.HasSuffix(pk.Path(), "/casketfile") {
+			nonParser = append(nonParser, f)
+		}
+	}
+	loopProgress(h, "R2", nonParser, 40)
+	r.Rule("R2L", "no deadlock on the setup path: every mutex acquired in the setup scope is released on every exit of the acquiring function", 1)
+	spec := lockSpec()
+	nl := 0
+	for _, fn := range scope {
+		for _, res := range spec.run(fn) {
+			nl++
+			mu := res.Key[strings.Index(res.Key, "@")+1:]
+			r.Check(res.BadExit == nil, "R2L", shortFunc(fn)+"/"+mu, res.Acquire.Pos(), "lock released on every exit (a leaked lock makes the next load or validation hang)")
+		}
+	}
+	if nl == 0 {
+		r.Unresolve("R2L", "no lock acquisition found in the setup scope (basicauth's htpasswd cache lock expected)")
+	}
+	// R3: validate and start agree
+	r.Rule("R3", "validate and start agree: in executeDirectives no condition mentioning justValidate guards, skips or cuts short the call of a directive's setup function; justValidate otherwise only selects the throw-away instance and guards the parsing callbacks; casketmain's -validate path and Start both go through ValidateAndExecuteDirectives", 3)
+	if ex := h.fn("R3", "", "executeDirectives"); ex != nil {
+		n := 0
+		allInstrs(ex, func(in ssa.Instruction) {
+			c := callOf(in)
+			if c == nil || c.IsInvoke() || c.StaticCallee() != nil {
+				return
+			}
+			if derives(c.Value, func(v ssa.Value) bool { return isResultOf(v, 0, modPath+".DirectiveAction") }, flowOpts{}) {
+				n++
+				r.Check(!guardedByJustValidate(ex, in), "R3", "casket.executeDirectives/setup-independent-of-justValidate", in.Pos(), "every setup call a real start makes is also made by -validate")
+			}
+		})
+		if n == 0 {
+			r.Unresolve("R3", "executeDirectives: setup call not found")
+		}
+	}
+	for _, spec := range [][2]string{{"", "startWithListenerFds"}, {"casket/casketmain", "Run"}} {
+		fn := h.fn("R3", spec[0], spec[1])
+		if fn == nil {
+			continue
+		}
+		calls := false
+		for _, g := range withClosures(fn) {
+			if len(callsTo(g, "casket.ValidateAndExecuteDirectives")) > 0 {
+				calls = true
+			}
+		}
+		r.Check(calls, "R3", shortFunc(fn)+"/uses-ValidateAndExecuteDirectives", fn.Pos(), "both entry points execute directives through the one shared function")
+	}
+	// R4: nil guards of exported helpers
+	r.Rule("R4", "nil-guard discipline: an exported function on the setup path that dereferences a pointer-to-struct parameter (other than its receiver and the Controller) tests it for nil before the first dereference, unless every call site in the module passes a freshly allocated value", 1)
+	n4 := 0
+	for _, fn := range scope {
+		if fn.Parent() != nil || fn.Object() == nil || !fn.Object().Exported() {
+			continue
+		}
+		for pi, prm := range fn.Params {
+			if pi == 0 && fn.Signature.Recv() != nil {
+				continue
+			}
+			pt, ok := prm.Type().Underlying().(*types.Pointer)
+			if !ok {
+				continue
+			}
+			if _, isStruct := pt.Elem().Underlying().(*types.Struct); !isStruct {
+				continue
+			}
+			if strings.HasSuffix(prm.Type().String(), "casket.Controller") || strings.HasSuffix(prm.Type().String(), "net/http.Request") {
+				continue
+			}
+			// dereferences: FieldAddr / load through the parameter (or a φ that includes it)
+			var derefs []ssa.Instruction
+			allInstrs(fn, func(in ssa.Instruction) {
+				if fa, ok := in.(*ssa.FieldAddr); ok && derivesPlain(fa.X, prm) {
+					derefs = append(derefs, in)
+				}
+			})
+			if len(derefs) == 0 {
+				continue
+			}
+			n4++
+			nonNil := nilEdges(fn, false, func(v ssa.Value) bool { return v == ssa.Value(prm) })
+			isNilE := nilEdges(fn, true, func(v ssa.Value) bool { return v == ssa.Value(prm) })
+			guarded := true
+			for _, d := range derefs {
+				fa := d.(*ssa.FieldAddr)
+				if fa.X == ssa.Value(prm) {
+					// direct dereference of the parameter: needs the non-nil edge, or to be unreachable via the nil edge
+					if len(nonNil) > 0 && onlyVia(fn, d, nonNil) {
+						continue
+					}
+					if len(isNilE) > 0 && !canReachThroughEdges(fn, d, isNilE) {
+						continue
+					}
+					guarded = false
+				} else {
+					// through a φ that replaced nil by a default: fine if the φ's other edges are non-nil by construction
+					if ph, ok := fa.X.(*ssa.Phi); ok {
+						for k, e := range ph.Edges {
+							if e == ssa.Value(prm) {
+								pred := ph.Block().Preds[k]
+								g, okg := edgeGuard(pred, ph.Block())
+								x, nilWhenTrue, okc := nilCmp(g.Cond)
+								if !(okg && okc && x == ssa.Value(prm) && nilWhenTrue != g.Pos) {
+									guarded = false
+								}
+							}
+						}
+					}
+				}
+			}
+			if guarded {
+				r.Hold("R4", shortFunc(fn)+"/param:"+prm.Name(), fn.Pos(), "pointer parameter is tested for nil before it is dereferenced")
+				continue
+			}
+			// otherwise: no call site may pass a value that can be nil depending on the configuration: a field or map
+			// load that is not itself tested for nil at the call site
+			bad := ""
+			nCalls := 0
+			for _, g := range p.ModFuncs() {
+				allInstrs(g, func(x ssa.Instruction) {
+					c := callOf(x)
+					if c == nil || c.StaticCallee() != fn || pi >= len(c.Args) {
+						return
+					}
+					nCalls++
+					a := c.Args[pi]
+					if pth, _ := fieldPath(a); pth == "" {
+						if _, isLookup := a.(*ssa.Lookup); !isLookup {
+							return // fresh allocation, call result, parameter: not configuration-dependent nil
+						}
+					}
+					if _, isLoad := a.(*ssa.UnOp); !isLoad {
+						if _, isLookup := a.(*ssa.Lookup); !isLookup {
+							return
+						}
+					}
+					tested := nilEdges(g, false, func(v ssa.Value) bool { return sameValue(v, a) })
+					if len(tested) == 0 || !onlyVia(g, x, tested) {
+						bad = shortFunc(g) + " passes " + describe(a) + " at " + p.Pos(x.Pos())
+					}
+				})
+			}
+			r.Check(bad == "", "R4", shortFunc(fn)+"/param:"+prm.Name(), fn.Pos(), "pointer parameter is dereferenced without a nil test although a caller passes a field that may be unset (nil): setup would crash instead of returning an error", bad)
+		}
+	}
+	if n4 == 0 {
+		r.Unresolve("R4", "no exported setup helper with a dereferenced pointer parameter found")
+	}
+}
+
+// alwaysReturnsFresh: every return of f is a new allocation (&T{…}, new(T)).
+func alwaysReturnsFresh(f *ssa.Function) bool {
+	if f == nil || len(f.Blocks) == 0 {
+		return false
+	}
+	rv := returnValues(f, 0)
+	if len(rv) == 0 {
+		return false
+	}
+	for _, v := range rv {
+		if _, ok := v.(*ssa.Alloc); !ok {
+			return false
+		}
+	}
+	return true
+}
+
+// canReachThroughEdges: target reachable after taking one of the edges.
+func canReachThroughEdges(fn *ssa.Function, target ssa.Instruction, edges map[edge]bool) bool {
+	for e := range edges {
+		f := firstInstr(e.From.Succs[e.Idx])
+		if f == nil {
+			continue
+		}
+		if f == target || canReach(fn, f, target, cut{}) {
+			return true
+		}
+	}
+	return false
 }
